@@ -588,12 +588,13 @@ def run(rep):
     import core as _core
     import identmodel
     rep.describe("IDENT-MODEL", "into_identifier evaluated over %d probe strings agrees with the documented pattern syntax (kind, payload, case flag, ASCII folding, errors)" % len(identmodel.PROBES))
-    irows, iun = identmodel.evaluate(F, False)
+    icfg = "ignore_case" in (F.features or [])  # (thorough tier: the same rules under the other feature sets)
+    irows, iun = identmodel.evaluate(F, icfg)
     if irows is None:
         rep.note("pattern-syntax model not applicable (%s); structural rules decide" % iun)
     else:
         for probe, want, got, agree in irows:
-            rep.check(agree, "IDENT-MODEL", "IDENT-MODEL/default/%s" % (probe if probe else "<empty>"), "src/identifier.rs", "pattern %r is read as documented" % probe,
+            rep.check(agree, "IDENT-MODEL", "IDENT-MODEL/%s/%s" % ("ignore_case" if icfg else "default", probe if probe else "<empty>"), "src/identifier.rs", "pattern %r is read as documented" % probe,
                       None if agree else "expected %r, the body yields %r" % (want, got))
     model_ok = irows is not None and all(r[3] for r in irows)
 
